@@ -486,6 +486,12 @@ impl FastPathValidator {
         self.blocks_since_full
             .store(0, std::sync::atomic::Ordering::Relaxed);
     }
+
+    #[cfg(neumann_verif)]
+    pub fn verif_blocks_since_full(&self) -> usize {
+        self.blocks_since_full
+            .load(std::sync::atomic::Ordering::Relaxed)
+    }
 }
 
 #[cfg(test)]
